@@ -42,16 +42,19 @@ type sigRow struct {
 	Addrs []absAddr  `json:"addrs"`
 }
 type sigOut struct {
-	I        int      `json:"i"`
-	Acc      bool     `json:"acc"`
-	Code     int      `json:"code"`
-	Signed   []string `json:"signed"`  // tx.SignedAddr after validation (sorted hex), accepted only
-	Derived  []string `json:"derived"` // GetSignatureAddresses on an unvalidated copy (sorted, duplicates removed)
-	DerErr   string   `json:"derErr,omitempty"`
-	Expected []string `json:"expected"` // addresses computed by the driver for the spec's abstract address set
-	Panic    string   `json:"panic,omitempty"`
-	Wire     bool     `json:"wire"` // the signed transaction went through Serialization / Deserialization
-	How      string   `json:"how,omitempty"`
+	I                 int      `json:"i"`
+	Acc               bool     `json:"acc"`
+	Code              int      `json:"code"`
+	Signed            []string `json:"signed"`            // tx.SignedAddr after validation (sorted hex), accepted only
+	AccAfterLookup    bool     `json:"accAfterLookup"`    // verdict of VerifyTransaction on the copy AFTER GetSignatureAddresses
+	AccAgain          bool     `json:"accAgain"`          // verdict of a second VerifyTransaction on the validated object
+	SignedAfterLookup []string `json:"signedAfterLookup"` // SignedAddr of that copy, accepted only
+	Derived           []string `json:"derived"`           // GetSignatureAddresses on an unvalidated copy (sorted, duplicates removed)
+	DerErr            string   `json:"derErr,omitempty"`
+	Expected          []string `json:"expected"` // addresses computed by the driver for the spec's abstract address set
+	Panic             string   `json:"panic,omitempty"`
+	Wire              bool     `json:"wire"` // the signed transaction went through Serialization / Deserialization
+	How               string   `json:"how,omitempty"`
 }
 
 var sigSchemes = []string{"SHA256withECDSA", "SHA256withECDSA", "SHA512withEdDSA", "SM3withSM2", "SHA3-256withECDSA", "SHA384withECDSA"}
@@ -219,6 +222,19 @@ func txSig() {
 		})
 		if p2 != "" && o.Panic == "" {
 			o.Panic = "GetSignatureAddresses: " + p2
+		}
+		// the order the transaction pool uses: address lookup first (it fills the object's caches), validation second;
+		// and a second validation of the object validated above - the verdict may not depend on what ran before
+		var code2, code3 ontErrors.ErrCode
+		p3 := vio.Safe(func() { code2 = validation.VerifyTransaction(t2) })
+		p4 := vio.Safe(func() { code3 = validation.VerifyTransaction(t1) })
+		o.AccAfterLookup = p3 == "" && code2 == ontErrors.ErrNoError
+		o.AccAgain = p4 == "" && code3 == ontErrors.ErrNoError
+		if o.AccAfterLookup {
+			o.SignedAfterLookup = addrSet(t2.SignedAddr)
+		}
+		if (p3 != "" || p4 != "") && o.Panic == "" {
+			o.Panic = "revalidation: " + p3 + p4
 		}
 		set := map[string]bool{}
 		for _, a := range r.Addrs {
